@@ -1,4 +1,6 @@
 import ZipVerif.Lemmas.ExtraBridge
+import ZipVerif.Lemmas.EntryBridgeAes
+import ZipVerif.Props.C16
 /-
 C16 — bridge between the two hand-written models of `parse_extra_field` (red-team finding B3).
 
@@ -48,5 +50,188 @@ example : readerTail { (default : FileData) with method := .aes, compressedSize 
           aesMode := some (.aes128, .ae1), method := .stored } := by rfl
 example : readerTail { (default : FileData) with method := .aes } [0x01, 0x99, 7, 0, 2, 0, 0x41] =
     .err .invalidArchive := by rfl
+
+/-! ## C16 at ARCHIVE level: every byte string `ZipArchive::new` accepts, every entry with an AES extra record
+
+The theorems of `Props/C16.lean` speak about `AesReader::validate` / `AesReaderValid::read` / `ZipFile::read` with
+free parameters (mode, declared length, the bytes underneath).  `Lemmas/EntryBridgeAes.lean` connects them with the
+reader model: `openArchive` (the parsed central record: flag, 0x9901 record, `compressed_size`, CRC),
+`find_content` (the data start from the LOCAL header), `make_crypto_reader`'s decision (`byIndexRead` IS
+`cryptoChoice` followed by the layers: `Tie/ReaderGlue.byIndexRead_eq_choice`, `tie_make_crypto_reader`), the
+crate's AES layer as `Model.cryptoExt` (`Aes.validate`, `Aes.Valid.read`: the functions `Tie/AesValidate`,
+`Tie/AesLayer`, `Tie/AesCtr` tie to the translated `validate`, `read` and key stream). -/
+
+/-- **Tampering of an AES entry of an accepted archive is detected no later than end-of-file.**  `bs` is ANY
+byte string `ZipArchive::new` accepts, `i` any entry with the encryption flag and an AES extra record,
+`by_index_decrypt(i, pw)` returns `r`:
+
+* `r = Err(InvalidPassword)` exactly when the two bytes behind the salt are not the verifier derived from `pw` and
+  the salt (a changed salt or verifier ends here, up to PBKDF2);
+* `r = Ok(file)` with read-to-end result `res`: the verifier is the derived one, and for EVERY short-read schedule
+  of a reader holding the stored bytes `validate` hands out `aesReader .. sc`, and EITHER the declared payload and
+  the 10-byte code are all there and the code is `HMAC-SHA1(k_mac(pw, salt), payload)[0..10]`, OR `res` is an I/O
+  error and NO run - `AesReaderValid::read` with any caller buffers; `ZipFile::read` with any error-propagating
+  decoder, `Crc32Reader`, `finish_crypto` - is a sequence of successful reads followed by `Ok(0)` on a non-empty
+  buffer (`Aes.NeverEof`).  So after any change to salt, verifier, ciphertext, code or the declared size that
+  breaks the two equations (which is what HMAC is for), reading fails before or at end-of-file. -/
+theorem archive_aes_tamper_detected (P : Aes.AesPrims) (hW : P.WF) (decode : Method → Bytes → Out Bytes)
+    (bs : Bytes) {fa₀ : Option Nat} {a : Archive} {d₀ : Dev}
+    (hopen : openArchive fa₀ (Dev.ofBytes bs) = (.ok a, d₀))
+    {i : Nat} {data : FileData} (hfile : a.files[i]? = some data) (henc : data.encrypted = true)
+    {mode : AesMode} {vv : AesVendorVersion} (haes : data.aesMode = some (mode, vv)) {pw : Bytes}
+    {fa : Option Nat} {d' : Dev} {r : PwResult (Nat × Out Bytes)}
+    (h : byIndexRead (cryptoExt P decode) a i (some pw) fa d₀ = (.ok r, d')) :
+    ∃ ds L, Aes.dataLength (aesModeView mode) data.compressedSize.toNat = some L ∧
+      (r = .invalidPassword → ¬ aesVerifierOk P pw mode ((bs.drop ds).take data.compressedSize.toNat)) ∧
+      ∀ res, r = .ok (ds, res) →
+        aesVerifierOk P pw mode ((bs.drop ds).take data.compressedSize.toNat) ∧
+        ∀ sched : List Nat, ∃ sc,
+          Aes.validate P Aes.listSrc (aesModeView mode) (some L)
+              ⟨(bs.drop ds).take data.compressedSize.toNat, sched⟩ pw =
+            (.ok (some (aesReader P pw mode ((bs.drop ds).take data.compressedSize.toNat) L sc)),
+              ⟨aesBody mode ((bs.drop ds).take data.compressedSize.toNat), sc⟩) ∧
+          ((L + Aes.AUTH_CODE_LENGTH ≤ (aesBody mode ((bs.drop ds).take data.compressedSize.toNat)).length ∧
+              aesCodeOk P pw mode ((bs.drop ds).take data.compressedSize.toNat) L) ∨
+            ((∃ k, res = .err (.io k)) ∧
+              Aes.NeverEof P (aesReader P pw mode ((bs.drop ds).take data.compressedSize.toNat) L sc))) := by
+  have hbuf : d₀.buf = bs := by
+    have := openArchive_readOnly.elim fa₀ (Dev.ofBytes bs)
+    rw [hopen] at this; exact this
+  obtain ⟨ds, _, L, hdl, _, _, hA⟩ := entry_bridge_aes hW hfile henc haes h
+  rw [hbuf] at hA
+  refine ⟨ds, L, hdl, fun hinv => ((hA []).1 hinv).1, fun res hres => ⟨((hA []).2 res hres).1, fun sched => ?_⟩⟩
+  obtain ⟨_, sc, hv, hV⟩ := (hA sched).2 res hres
+  refine ⟨sc, hv, ?_⟩
+  by_cases hgood : L + Aes.AUTH_CODE_LENGTH ≤ (aesBody mode ((bs.drop ds).take data.compressedSize.toNat)).length ∧
+      aesCodeOk P pw mode ((bs.drop ds).take data.compressedSize.toNat) L
+  · exact Or.inl hgood
+  · exact Or.inr (hV.damaged hgood)
+
+/-- **The right password returns the original bytes - archive level.**  `bs` is any byte string `ZipArchive::new`
+accepts, entry `i` has the encryption flag and an AES extra record, `find_content` puts its data at `ds`, and the
+`compressed_size` bytes there are what an AE-x encryptor writes for the compressed stream `plain` under `pw`:
+`salt ‖ verifier(pw, salt) ‖ CTR_k(plain) ‖ HMAC(k_mac, CTR_k(plain))[0..10]` (the crate's key stream:
+`cryptInPlace` from counter 1).  Then `by_index_decrypt(i, pw)` returns `Ok(file)`, reading it to the end gives
+`decode(method, plain)` followed by the CRC comparison (skipped for AE-2), and under EVERY short-read schedule of a
+reader holding the stored bytes `validate` accepts and `AesReaderValid` DENOTES `plain` followed by a clean
+end-of-file: whatever the caller's buffer sizes, exactly these bytes, never an error. -/
+theorem archive_aes_right_password (P : Aes.AesPrims) (hW : P.WF) (decode : Method → Bytes → Out Bytes)
+    (bs : Bytes) {fa₀ : Option Nat} {a : Archive} {d₀ : Dev}
+    (hopen : openArchive fa₀ (Dev.ofBytes bs) = (.ok a, d₀))
+    {i : Nat} {data : FileData} (hfile : a.files[i]? = some data) (henc : data.encrypted = true)
+    {mode : AesMode} {vv : AesVendorVersion} (haes : data.aesMode = some (mode, vv)) {pw : Bytes}
+    {fa : Option Nat} {d' : Dev} {r : PwResult (Nat × Out Bytes)}
+    (h : byIndexRead (cryptoExt P decode) a i (some pw) fa d₀ = (.ok r, d'))
+    {ds : Nat} {d1 : Dev} (hfind : findContent data fa d₀ = (.ok ds, d1))
+    (salt plain ct : Bytes) (st' : Aes.CtrState) (hs : salt.length = aesSl mode)
+    (henc' : Aes.cryptInPlace P ((P.pbkdf2 pw salt (2 * aesK mode + 2)).take (aesK mode)) Aes.CtrState.new plain
+      = .ok (ct, st'))
+    (hcs : data.compressedSize.toNat = aesSl mode + 2 + ct.length + Aes.AUTH_CODE_LENGTH)
+    (hraw : (bs.drop ds).take data.compressedSize.toNat =
+      salt ++ (P.pbkdf2 pw salt (2 * aesK mode + 2)).drop (2 * aesK mode) ++
+        (ct ++ (P.hmac (((P.pbkdf2 pw salt (2 * aesK mode + 2)).drop (aesK mode)).take (aesK mode)) ct).take
+          Aes.AUTH_CODE_LENGTH)) :
+    r = .ok (ds, decode data.method plain >>= crcCheck (vv == .ae2) data.crc32) ∧
+    ∀ sched : List Nat, ∃ sc,
+      Aes.validate P Aes.listSrc (aesModeView mode) (some ct.length)
+          ⟨(bs.drop ds).take data.compressedSize.toNat, sched⟩ pw =
+        (.ok (some (aesReader P pw mode ((bs.drop ds).take data.compressedSize.toNat) ct.length sc)),
+          ⟨aesBody mode ((bs.drop ds).take data.compressedSize.toNat), sc⟩) ∧
+      Layers.Denotes (aesSrc P Aes.listSrc)
+        (aesReader P pw mode ((bs.drop ds).take data.compressedSize.toNat) ct.length sc) plain .eof := by
+  have hbuf : d₀.buf = bs := by
+    have := openArchive_readOnly.elim fa₀ (Dev.ofBytes bs)
+    rw [hopen] at this; exact this
+  obtain ⟨ds', ⟨d1', hf1, _, _⟩, L, hdl, hLU, _, hA⟩ := entry_bridge_aes hW hfile henc haes h
+  obtain ⟨ds2, d2, hf2, _, _, hr⟩ := byIndexRead_aes_inv hfile henc haes h
+  have e1 : ds' = ds := by rw [hfind] at hf1; injection hf1 with h1 _; injection h1 with h1; exact h1.symm
+  have e2 : ds2 = ds := by rw [hfind] at hf2; injection hf2 with h1 _; injection h1 with h1; exact h1.symm
+  rw [e1] at hA
+  rw [e2] at hr
+  rw [hbuf] at hA hr
+  generalize hrawdef : (bs.drop ds).take data.compressedSize.toNat = raw at hA hr hraw ⊢
+  -- the parts of `raw`
+  have hvl : ((P.pbkdf2 pw salt (2 * aesK mode + 2)).drop (2 * aesK mode)).length = 2 := by
+    rw [List.length_drop, hW.pbkdf2_len]; omega
+  have hsalt : raw.take (aesSl mode) = salt := by
+    rw [hraw, List.append_assoc, ← hs, List.take_left]
+  have hdk : aesDk P pw mode raw = P.pbkdf2 pw salt (2 * aesK mode + 2) := by
+    unfold aesDk; rw [hsalt]
+  have hver : aesVerifierOk P pw mode raw := by
+    unfold aesVerifierOk
+    rw [hdk, hraw, List.append_assoc, ← hs, List.drop_left]
+    exact List.take_left' hvl
+  have hbody : aesBody mode raw = ct ++ (P.hmac (aesHk P pw mode raw) ct).take Aes.AUTH_CODE_LENGTH := by
+    unfold aesBody aesHk
+    rw [hdk, hraw]
+    have : aesSl mode + 2 = (salt ++ (P.pbkdf2 pw salt (2 * aesK mode + 2)).drop (2 * aesK mode)).length := by
+      rw [List.length_append, hvl, hs]
+    rw [this, List.drop_left]
+  have hL : L = ct.length := by
+    have hk : (aesModeView mode).saltLength = aesSl mode := rfl
+    unfold Aes.dataLength at hdl
+    simp only [Aes.PWD_VERIFY_LENGTH, Aes.AUTH_CODE_LENGTH, hk] at hdl hcs
+    split at hdl
+    · injection hdl with hdl; omega
+    · cases hdl
+  subst hL
+  have hml : ((P.hmac (aesHk P pw mode raw) ct).take Aes.AUTH_CODE_LENGTH).length = Aes.AUTH_CODE_LENGTH := by
+    rw [List.length_take, hW.hmac_len]; decide
+  have hlen : ct.length + Aes.AUTH_CODE_LENGTH ≤ (aesBody mode raw).length := by
+    rw [hbody, List.length_append, hml]; omega
+  have hcode : aesCodeOk P pw mode raw ct.length := by
+    unfold aesCodeOk
+    rw [hbody, List.take_left, List.drop_left]
+    exact (List.take_of_length_le (Nat.le_of_eq hml)).symm
+  have hkey : aesKey P pw mode raw = (P.pbkdf2 pw salt (2 * aesK mode + 2)).take (aesK mode) := by
+    unfold aesKey; rw [hdk]
+  -- decrypting the ciphertext gives the plaintext back
+  have hdec : ∀ pt cfin, Aes.cryptBytes P (aesKey P pw mode raw) Aes.CtrState.new ((aesBody mode raw).take ct.length)
+      = .ok (pt, cfin) → pt = plain := by
+    intro pt cfin hpt
+    have hg : Aes.CtrState.new.Good := ⟨Nat.le_refl _, rfl⟩
+    have := Props.C16.ctr_involutive P hW _ _ _ hg plain ct henc'
+    rw [Aes.cryptInPlace_eq_bytes P _ hW hg, ← hkey] at this
+    rw [hbody, List.take_left, this] at hpt
+    injection hpt with hpt; injection hpt with hpt _; exact hpt.symm
+  have hrok : ∀ res, r = .ok (ds, res) →
+      res = (decode data.method plain >>= crcCheck (vv == .ae2) data.crc32) := by
+    intro res hres
+    obtain ⟨_, sc, _, hV⟩ := (hA []).2 res hres
+    obtain ⟨pt, cfin, hpt, hres2, _⟩ := hV.intact hlen hcode
+    rw [hres2, hdec pt cfin hpt]; rfl
+  refine ⟨?_, fun sched => ?_⟩
+  · rcases hr with ⟨stream, _, hh⟩ | ⟨_, hinv⟩
+    · rw [hh, ← hrok _ hh]
+    · exact absurd hver ((hA []).1 hinv).1
+  · rcases hr with ⟨stream, _, hh⟩ | ⟨_, hinv⟩
+    · obtain ⟨_, sc, hv, hV⟩ := (hA sched).2 _ hh
+      obtain ⟨pt, cfin, hpt, _, hden⟩ := hV.intact hlen hcode
+      rw [hdec pt cfin hpt] at hden
+      exact ⟨sc, hv, hden⟩
+    · exact absurd hver ((hA []).1 hinv).1
+
+/-! ### Non-vacuity: a concrete archive (stand-in primitives), evaluated by the kernel -/
+
+/-- `Model.aesExArchive` (147 bytes: one entry, method 99, AE-2 / AES-128 / Stored record, payload produced by an
+independent encryptor) is accepted; entry 0 has the flag and the record; `by_index_decrypt(0, "pw")` hands it out
+with data start 42 and content `[1,2,3,4,5]` - the hypotheses of `archive_aes_right_password`,
+`archive_aes_tamper_detected`, C09's `archive_entry_chunk_independent_aes` and C04's `archive_entry_sound_aes`; the
+call-by-call read over a short-reading source with zero-length buffers interleaved returns the same. -/
+example : aesOpenRead aesExArchive [0x70, 0x77] [0, 2] [2, 0, 1, 9, 9] =
+    some (42, some [1, 2, 3, 4, 5], some [1, 2, 3, 4, 5]) := by decide +kernel
+
+/-- Wrong password: `InvalidPassword` (no file). -/
+example : aesOpenRead aesExArchive [0x70] [0, 2] [2, 0, 1, 9, 9] = some (0, none, none) := by decide +kernel
+
+/-- One ciphertext byte changed; the code destroyed; the payload cut short (declared size kept): the archive is
+still accepted, the entry is handed out, the one-shot result is an error and so is the call-by-call read. -/
+example : aesOpenRead (aesExArchive.set 53 0) [0x70, 0x77] [0, 2] [2, 0, 1, 9, 9] = some (42, none, none) ∧
+    aesOpenRead (aesExArchive.set 60 0) [0x70, 0x77] [] [9, 9] = some (42, none, none) ∧
+    aesOpenRead (aesExArchiveOf ((aesExPayload [1, 2, 3, 4, 5]).take 20) 25) [0x70, 0x77] [1] [3, 3, 3] =
+      some (42, none, none) := by
+  refine ⟨by decide +kernel, by decide +kernel, by decide +kernel⟩
+
+example : exPrims.WF := exPrims_wf
 
 end ZipVerif.Props.C16Bridge
